@@ -564,6 +564,8 @@ static V *menu_value(int k)
 	}
 }
 #define MAXMENU 4096
+/* nested array variants of the out-of-range indices */
+static const char *bigidx_paths[] = {"/b/c/4294967296", "/b/c/4294967297", "/1/4294967297", "/arr/18446744073709551617", "/arr/4294967298"};
 static int build_menu(V *doc, V **menu, int reduced)
 {
 	struct ptrs nodes = {.n = 0}, paths = {.n = 0};
@@ -579,8 +581,8 @@ static int build_menu(V *doc, V **menu, int reduced)
 		pre.p[0] = 0;
 	beyond_pointers(doc, &pre, &paths);
 	sb_free(&pre);
-	static const char *malformed[] = {"x", "/nope/deeper", "/-1"};
-	for (int k = 0; k < 3 && paths.n < MAXPTR; k++)
+	static const char *malformed[] = {"x", "/nope/deeper", "/-1", "/4294967296", "/4294967297", "/18446744073709551617"};
+	for (int k = 0; k < (reduced ? 4 : 6) && paths.n < MAXPTR; k++)
 		snprintf(paths.p[paths.n++], 48, "%s", malformed[k]);
 	int n = 0, nv = reduced ? 2 : 4;
 	for (int p = 0; p < paths.n; p++)
@@ -611,6 +613,13 @@ static int build_menu(V *doc, V **menu, int reduced)
 				menu[n++] = mkop("copy", paths.p[p], nodes.p[f], NULL, 0);
 		}
 	}
+	for (unsigned k = 0; k < sizeof bigidx_paths / sizeof bigidx_paths[0] && n + 4 < MAXMENU; k++)
+	{
+		menu[n++] = mkop("remove", bigidx_paths[k], NULL, NULL, 0);
+		menu[n++] = mkop("replace", bigidx_paths[k], NULL, menu_value(0), 1);
+		menu[n++] = mkop("copy", "/new", bigidx_paths[k], NULL, 0);
+		menu[n++] = mkop("test", bigidx_paths[k], NULL, menu_value(0), 1);
+	}
 	/* from that does not exist */
 	if (n < MAXMENU)
 		menu[n++] = mkop("move", "/new", "/absent", NULL, 0);
@@ -635,6 +644,7 @@ static const char *targets[] = {
     "[0,1,2,3,4,5,6,7,8,9,10,11]", /* two-digit indices */
 };
 #define NTARGETS 11
+
 
 static V *parse_v(const char *t)
 {
